@@ -4,6 +4,7 @@ import XalanModel.C04.CommentPI
 import XalanModel.C04.Indent
 import XalanModel.C04.DocReader
 import XalanModel.C04.IndentTextProofs
+import XalanModel.C04.RawMarker
 import Driver.Util
 /-
 xm_c04: replays SAX event scripts on the Lean model of FormatterToXMLUnicode + writers + buffers.
@@ -116,7 +117,8 @@ def printEvent : Event → String
 (`decorEvents`), to be given to the *plain* real serializer -/
 def filterReply (amount : String) (evs : List String) : String :=
   match amount.toNat?, evs.mapM parseEvent with
-  | some n, some events => " ".intercalate ("events" :: (decorEvents events [] { on := true, amount := n }).map printEvent)
+  | some n, some events =>
+    " ".intercalate ("events" :: (decorEvents (resolveRaw RawCfg.generated false events) [] { on := true, amount := n }).map printEvent)
   | _, _ => "bad"
 
 def errName : Err → String
@@ -184,7 +186,9 @@ def parseOpts (s : String) : Option DocOpts :=
 
 def runDoc (o : DocOpts) (cd : CDataCfg) (fx : Fixes) (enc ver : String) (evs : List String) : String :=
   match encOf fx enc, verOf ver, evs.mapM parseEvent with
-  | some e, some v, some events =>
+  | some e, some v, some events0 =>
+    -- the marker PI / m_nextIsRaw, as the working tree has it
+    let events := resolveRaw RawCfg.generated false events0
     let cfg : Cfg := ⟨v, e, cd, enc.toList.map Char.toNat, o.decl, o.sa, o.sys, o.pub⟩
     match (match o.ind with | none => serializeItems cfg events | some n => serializeItemsI cfg true n events) with
     | .error er => "err " ++ errName er
